@@ -26,7 +26,7 @@ TRUSTED = [
     "Lean 4.33.0 kernel; axioms of every theorem audited to be within {propext, Classical.choice, Quot.sound}",
     "hand-written model lean/CashewsVerif/Model/Tags.lean of cashews/wrapper/tags.py + Memory.set_add/set_remove/set_pop/_delete, tied to the code by this run's history correspondence",
     "the model works on the TTL map (C01) and has no capacity: the property's hypothesis 'store within capacity' is built in (runs use size=100000)",
-    "tag registry abstracted in the main theorems as the function key -> tags; its template/regex layer (cashews/formatter.py template_to_re_pattern) is compared with the harness's own field substitution on every universe key of every case and modelled separately in Model/TagTemplates.lean",
+    "tag registry abstracted in the main theorems as the function key -> tags; its template/regex layer (cashews/formatter.py template_to_re_pattern, TagsRegistry.get_key_tags) is compared with the harness's own field substitution on every universe key of every case",
     "harness: virtual clock (harness/vtime.py), canonicalisation, purge-sweep splicing, raw peeks into Memory.store used only by the oracle and the statistics (harness/taghist.py)",
     "decorator calls: the body is a harness function returning a fresh token; thunder protection is on (default) but calls are sequential",
 ]
@@ -81,6 +81,44 @@ def run_case(cfg, layname, ops):
     r = taghist.execute(cfg, lay, ops)
     answers = DRIVER.ask(model_lines(lay, r.eff, batch()))
     return r, answers
+
+
+def run_cases(batch_cases):
+    """run several cases on the implementation, then ask the driver once for all of them"""
+    runs = []
+    lines = []
+    spans = []
+    for cfg, layname, ops in batch_cases:
+        lay = layout(layname)
+        r = taghist.execute(cfg, lay, ops)
+        ml = model_lines(lay, r.eff, batch())
+        spans.append((len(lines), len(lines) + len(ml)))
+        lines.extend(ml)
+        runs.append(r)
+    answers = DRIVER.ask(lines) if lines else []
+    return [(r, answers[a:b]) for r, (a, b) in zip(runs, spans)]
+
+
+def exhaustive_cases(maxlen: int):
+    """every history of 1..maxlen commands over a small alphabet (2 keys, 1 tag, TTL none/short/long, tagged set and
+    incr, delete, time beyond the short TTL), each followed by delete_tags and a probe of both keys"""
+    alphabet = ["set 0 t:1 - a 0", "set 0 t:1 8 a 0", "set 0 t:1 800 a 0", "set 1 t:2 - a 0", "set 1 t:2 8 a 0", "set 1 t:2 800 a 0",
+                "incr 0 1 8 0", "incr 1 1 800 0", "set 0 i:3 - a -", "delete 1", "adv 16", "deltags 0"]
+    tail = ["deltags 0", "get 0", "get 1"]
+    out = []
+
+    def rec(prefix, depth):
+        if prefix:
+            out.append(list(prefix) + tail)
+        if depth == 0:
+            return
+        for a in alphabet:
+            prefix.append(a)
+            rec(prefix, depth - 1)
+            prefix.pop()
+
+    rec([], maxlen)
+    return out, len(alphabet)
 
 
 def fails(cfg, layname, ops, want_spec: bool) -> bool:
@@ -158,9 +196,9 @@ def corpus_cases():
 
 def run(chk: Check) -> int:
     proof = proof_stage(PROP, "driver_c12", chk.thorough) if not getattr(chk, "skip_proof", False) else None
-    n = chk.budget(900, 40000)
-    nbig = chk.budget(10, 120)
-    nunreg = chk.budget(30, 600)
+    n = chk.budget(6000, 120000)
+    nbig = chk.budget(18, 180)
+    nunreg = chk.budget(60, 1200)
     rng = chk.rng
     cases = [("corpus:" + name, cfg, lay, ops) for name, cfg, lay, ops in corpus_cases()]
     ncorpus = len(cases)
@@ -175,6 +213,11 @@ def run(chk: Check) -> int:
     for i in range(nunreg):
         cases.append((f"unreg:{i}", CFGS[i % 2], "unreg", taghist.gen_history(rng, layout("unreg"), 16, registered_only=False)))
 
+    exh_len = chk.budget(3, 4)
+    exh, nalpha = exhaustive_cases(exh_len)
+    for i, ops in enumerate(exh):
+        cases.append((f"exh:{i}", "shared" if i % 2 else "separate", "plain", ops))
+
     found = 0
     evaluations = 0
     distinct = set()
@@ -185,32 +228,38 @@ def run(chk: Check) -> int:
     samples = []
     notes = 0
     deltags_checked = 0
-    for origin, cfg, lay, ops in cases:
-        r, answers = run_case(cfg, lay, ops)
-        evaluations += 1
-        by_layout[lay.split(":")[0]] = by_layout.get(lay.split(":")[0], 0) + 1
-        by_cfg[cfg] = by_cfg.get(cfg, 0) + 1
-        for l, _ in r.eff:
-            w = l.split()
-            name = w[0]
-            if name in ("set", "incr"):
-                name += "_tagged" if w[-1] != "-" else "_plain"
-            hist[name] = hist.get(name, 0) + 1
-        deltags_checked += len(r.oracle_sets)
-        for k in r.stats:
-            interesting[k] = interesting.get(k, 0) + 1
-        notes += len(r.notes)
-        nontrivial = [k for k in r.stats if k not in ("decorator_hit", "unregistered_tag_used(not judged)", "purge_sweeps_spliced")]
-        if nontrivial and r.oracle_sets:
-            distinct.add((cfg, lay, tuple(ops)))
-        if len(samples) < 3 and nontrivial and r.oracle_sets and len(ops) <= 12:
-            samples.append({"config": cfg, "layout": lay, "ops": ops, "impl": [o for _, o in r.eff], "states": sorted(r.stats)})
-        dm, ds, gh = compare(r, answers)
-        if dm is not None or ds is not None or gh is not None:
-            found += 1
-            report(chk, cfg, lay, ops, origin)
-            if found >= 3:
-                break
+    CHUNK = 150
+    for c0 in range(0, len(cases), CHUNK):
+        chunk = cases[c0:c0 + CHUNK]
+        results = run_cases([(cfg, lay, ops) for _, cfg, lay, ops in chunk])
+        for (origin, cfg, lay, ops), (r, answers) in zip(chunk, results):
+            evaluations += 1
+            lname = "exhaustive" if origin.startswith("exh:") else lay.split(":")[0]
+            by_layout[lname] = by_layout.get(lname, 0) + 1
+            by_cfg[cfg] = by_cfg.get(cfg, 0) + 1
+            for l, _ in r.eff:
+                w = l.split()
+                name = w[0]
+                if name in ("set", "incr"):
+                    name += "_tagged" if w[-1] != "-" else "_plain"
+                hist[name] = hist.get(name, 0) + 1
+            deltags_checked += len(r.oracle_sets)
+            for k in r.stats:
+                interesting[k] = interesting.get(k, 0) + 1
+            notes += len(r.notes)
+            nontrivial = [k for k in r.stats if k not in ("decorator_hit", "unregistered_tag_used(not judged)", "purge_sweeps_spliced")]
+            if nontrivial and r.oracle_sets:
+                distinct.add((cfg, lay, tuple(ops)))
+            if len(samples) < 3 and nontrivial and r.oracle_sets and len(ops) <= 12 and origin.startswith("gen:"):
+                samples.append({"config": cfg, "layout": lay, "ops": ops, "impl": [o for _, o in r.eff], "states": sorted(r.stats)})
+            dm, ds, gh = compare(r, answers)
+            if dm is not None or ds is not None or gh is not None:
+                found += 1
+                report(chk, cfg, lay, ops, origin)
+                if found >= 3:
+                    break
+        if found >= 3:
+            break
     if interesting.get("SET_GONE_WHILE_MEMBER_ALIVE") and not found:
         raise HarnessError("a tag set was gone while a carrier was alive, yet no violation was derived - oracle bug")
     if proof is not None:
@@ -225,6 +274,10 @@ def run(chk: Check) -> int:
                 "at least one interesting state listed in interesting_states_cases (other than a decorator hit); distinct = distinct (config, layout, op list)",
         "samples": samples,
         "corpus_cases": ncorpus,
+        "exhaustive": True,
+        "exhaustive_subspace": f"all {len(exh)} histories of 1..{exh_len} commands over a {nalpha}-command alphabet (2 keys, 1 tag, tagged set with TTL none/1s/100s, "
+                               "tagged incr, untagged overwrite, delete, 2s advance, delete_tags), each followed by delete_tags and a probe of both keys; "
+                               "the generated histories of the other layouts are sampled, not exhaustive",
         "delete_tags_commands_judged": deltags_checked,
         "op_histogram": hist,
         "cases_by_layout": by_layout,
